@@ -34,7 +34,7 @@ for h, needs, fn, can in (
         ("pl_phsRejectBounds", ["pl_phsRejectBounds"], "PathLengthDirectInfSampler::samplePhsRejectBounds", [dict(name="bounds_not_checked", where="body:pl_phsRejectBounds", rx=r"foundSample = SAT_BOUNDS\(\);", repl="SAT_BOUNDS();")]),
         ("pl_helper", ["pl_boundsRejectPhs", "pl_phsRejectBounds", "pl_helper"], "PathLengthDirectInfSampler::sampleUniform(state, maxCost, iters)", [dict(name="success_without_sampling", where="body:pl_helper", rx=r"foundSample = pl_phsRejectBounds\(iters\);", repl="foundSample = true;")]),
         ("pl_minmax", ["pl_boundsRejectPhs", "pl_phsRejectBounds", "pl_helper", "pl_minmax"], "PathLengthDirectInfSampler::sampleUniform(state, minCost, maxCost)", [dict(name="lower_bound_ignored", where="body:pl_minmax", rx=r"foundSample = NOT_BELOW_MIN\(minCost, sampledCost\);", repl="NOT_BELOW_MIN(minCost, sampledCost);")])):
-    UNITS.append(dict(defines=({"DIRECT_SAMPLER": 1} if h.startswith("pl_") else {}), **dict(name="c15_" + h, template="C15/informed.c", mode="plain", entry="h_" + h, sources=SRC, needs=needs, flags=FLAGS, unwind=10, level="bounded", bound="numIters_ <= 3", backend="minisat", timeout=300, functions=["ompl::base::" + fn], canaries=can)))
+    UNITS.append(dict(defines=({"DIRECT_SAMPLER": 1} if h.startswith("pl_") else {}), **dict(name="c15_" + h, template="C15/informed.c", mode="plain", entry="h_" + h, sources=SRC, needs=needs, flags=FLAGS, unwind=10, level="bounded", bound="numIters_ <= 3", backend="minisat", timeout=300, tiers={"thorough": {"defines": {"NI_MAX": 7}, "unwind": 14, "bound": "numIters_ <= 7", "timeout": 900}}, functions=["ompl::base::" + fn], canaries=can)))
 ASSUMPTIONS = ["the base state sampler yields states within the space bounds (its own contract: C08)", "membership in a prolate hyperspheroid of transverse diameter c is equivalent to a heuristic path-length cost below c (geometry, trusted)",
                "costs are non-NaN doubles compared by the minimising order", "numIters_ <= 10^9 and fewer than 10^9 earlier draws (32-bit counters do not wrap)"]
 TRUSTED = ["extraction rewrite table of units/C15.py", "stub contracts in units/C15/informed_unb.c and stubs in units/C15/informed.c", "CBMC 6.11 (goto-instrument DFCC) + minisat"]
